@@ -87,13 +87,22 @@ class C10(CleanBase):
             return fails
         main = hx(b"/S/def/zz_verif_trace_test.snap")
         b0, b1, b2 = fss[0][2], fss[1][2], fss[2][2]
-        if main not in b0 or not any(n == "match" and kv["api"] == "snap" for n, kv in ops):
+        if main not in b0 or not any(n == "match" and kv["api"] == "snap" and kv["h"] == "0" for n, kv in ops):
             return fails
         e0, e1 = parse_entries(unhx(b0[main])), parse_entries(unhx(b1.get(main, "-")))
         stale = [] if cl[0][2]["otests"] == "~" else [unhx(x) for x in cl[0][2]["otests"].split(",")]
         ci_, upd_ = env_at_clean(case, ops)
         sort_ = next((kv["sort"] == "1" for name, kv in ops if name == "clean"), False)
         deletes = (not ci_) and upd_ in ("true", "clean")
+        cnt = next((int(kv["count"]) for name, kv in ops if name == "clean"), 1)
+        percall = {}
+        for name, kv in ops:
+            if name == "clean":
+                break
+            if name == "match" and kv["api"] == "snap" and kv["h"] == "0":
+                percall[kv["test"]] = percall.get(kv["test"], 0) + 1
+        main_live = set(unhx(t) + b" - %d" % k for t, n_ in percall.items() for k in range(1, n_ // cnt + 1))
+        stale = [i for i in stale if i not in main_live]      # a same-named stale entry may live in another file
         keep = [(i, b) for i, b in e0 if not (deletes and i in stale)]
         if sorted(e1) != sorted(keep):
             fails.append({"msg": "entries after Clean differ from the surviving entries: before %s, after %s" % ([i for i, _ in e0], [i for i, _ in e1])})
